@@ -29,6 +29,8 @@ def run(rep, tier):
                         'one entry per character; line table first'),
         ('ERR-position', 'error functions: (None, None) iff len(text) <= pos; else line/col of pos; index = pos'),
         ('FARTHEST', 'Choice reports the farthest failure position, first option winning ties'),
+        ('TABLE-per-call', 'the line/column tables are computed from the text of the call, not taken from a store '
+                           'that outlives it'),
     ]:
         rep.rule(rid, txt)
     nob = 0
@@ -45,7 +47,7 @@ def run(rep, tier):
         rep.obligations += a + b
         rep.discharged += a + b - len([1 for r, _ in found if r in ('EXCERPT-bounds', 'EXCERPT-caret', 'LINECOL-map')])
         for rule, msg in found:
-            if rule in ('EXCERPT-bounds', 'EXCERPT-caret', 'LINECOL-map'):
+            if rule in ('EXCERPT-bounds', 'EXCERPT-caret', 'LINECOL-map', 'TABLE-per-call'):
                 rep.add(Finding(rule, f'{rel}:runtime', '', msg, f'{rel} ({what})'))
     rep.count('arithmetic obligations', nob)
     rep.floor('runtime copies analysed', rep.instances.get('runtime copies analysed', 0), 3)
